@@ -105,7 +105,10 @@ let handle ws = match ws with
        | S1Bad (PCSettings _) -> "err settings"
        | S1Skip (ty, pos) -> "err unknown:" ^ string_of_n ty ^ " pos=" ^ string_of_n pos) in
       m ^ " | " ^ s
-  | ["hc"; site; h; ending] ->
+  | ["hc"; site; h; ending; _pattern] ->
+      (* h: the stream's bytes, `.` marks the frame boundaries used by arrival pattern B; the pattern (A all queued before
+         the first poll, B one chunk per frame, C FIN late) must not matter *)
+      let h = String.concat "" (String.split_on_char '.' h) in
       (* the connection error code raised when these bytes arrive on a request stream (site s/c) or, after the stream
          type and a SETTINGS frame, on the control stream (site ctl); `-`: no frame-layer error *)
       let v = bytes_of_hex h in
@@ -113,7 +116,7 @@ let handle ws = match ws with
       let acts = [Arrive (Chunk v)] @ (if en = Finished then [Arrive Fin] else []) @
                  List.init (2 * List.length v + 4) (fun _ -> CallAuto) in
       let (os, _) = run acts (fs_new []) false in
-      let code_of e = if site = "ctl" then fserr_code_ctl e else fserr_code e in
+      let code_of e = if site = "ctl" || site = "ctl0" then fserr_code_ctl e else fserr_code e in
       let m = List.fold_left (fun acc o -> match o with
         | ONext (Ready (Err e)) | OData (Ready (Err e)) -> code_str (code_of e)
         | _ -> acc) "-" os in
